@@ -5,6 +5,7 @@ import (
 	"crypto/ed25519"
 	"encoding/json"
 	"fmt"
+	"github.com/tidwall/gjson"
 	"time"
 
 	"github.com/matrix-org/gomatrixserverlib/spec"
@@ -301,10 +302,12 @@ func PerformJoin(
 	// server now thinks we're a part of the room. Send the newly
 	// returned state to the roomserver to update our local view.
 	if input.Unsigned != nil {
-		event, err = event.SetUnsigned(input.Unsigned)
-		if err != nil {
-			// non-fatal, log and continue
-			logrus.WithError(err).Errorf("Failed to set unsigned content")
+		withUnsigned, unsignedErr := event.SetUnsigned(input.Unsigned)
+		if unsignedErr != nil {
+			// non-fatal, log and continue with the event as it is
+			logrus.WithError(unsignedErr).Errorf("Failed to set unsigned content")
+		} else {
+			event = withUnsigned
 		}
 	}
 
@@ -413,7 +416,7 @@ func checkEventsContainCreateEvent(events []PDU) error {
 			if err != nil {
 				return err
 			}
-			if verBody.Version == "" {
+			if verBody.Version == "" && !gjson.GetBytes(content, "room_version").Exists() {
 				// https://matrix.org/docs/spec/client_server/r0.6.0#m-room-create
 				// The version of the room. Defaults to "1" if the key does not exist.
 				verBody.Version = "1"
